@@ -8,6 +8,7 @@
 #include "parsec/class/info.h"
 #include "pv.h"
 #include <stdint.h>
+#include <pthread.h>
 
 #define MAXOA 64
 static parsec_info_t *nfo = NULL;
@@ -33,9 +34,59 @@ static void reset(void)
     nfo = PARSEC_OBJ_NEW(parsec_info_t);
 }
 
-int main(void)
+/* ---- free-running concurrent search (C41 "under concurrent use and registry growth") ----
+ * Worker k owns info id k of a shared object array: it sets a value and must read it back, while a
+ * grower thread keeps registering new infos and touching their ids, forcing the array to grow. */
+static parsec_info_t *s_nfo; static parsec_info_object_array_t *s_oa;
+static volatile int s_stop; static volatile long s_bad; static int s_workers;
+static void *stress_worker(void *p)
+{
+    int k = (int)(intptr_t)p; long v = 1;
+    while( !s_stop ) {
+        v = (v % 200) + 1;
+        parsec_info_set(s_oa, k, (void*)(uintptr_t)(v * 256 + k + 1));
+        for(int j = 0; j < 16; j++) {
+            long g = (long)(uintptr_t)parsec_info_get(s_oa, k);
+            if( g != v * 256 + k + 1 ) {
+                if( __sync_fetch_and_add(&s_bad, 1) == 0 )
+                    printf("!viol C41 concurrent: get of slot %d returned %ld, the last value set by its only writer is %ld (another thread was growing the array)\n", k, g, v * 256 + k + 1);
+            }
+        }
+        void *r = parsec_info_test_and_set(s_oa, k, (void*)(uintptr_t)(v * 256 + k + 1), (void*)(uintptr_t)7);
+        if( (long)(uintptr_t)r != v * 256 + k + 1 && __sync_fetch_and_add(&s_bad, 1) == 0 )
+            printf("!viol C41 concurrent: test_and_set with a non-matching old value changed/returned %ld on slot %d\n", (long)(uintptr_t)r, k);
+    }
+    return NULL;
+}
+static int stress(int workers, int rounds, int grow)
+{
+    pthread_t th[16]; char nm[32];
+    if( workers > 15 ) workers = 15;
+    for(int r = 0; r < rounds; r++) {
+        s_nfo = PARSEC_OBJ_NEW(parsec_info_t); s_stop = 0; s_workers = workers;
+        for(int k = 0; k < workers; k++) { snprintf(nm, sizeof nm, "w%d", k); parsec_info_register(s_nfo, nm, NULL, NULL, NULL, NULL, NULL); }
+        s_oa = PARSEC_OBJ_NEW(parsec_info_object_array_t);
+        parsec_info_object_array_init(s_oa, s_nfo, NULL);
+        for(int k = 0; k < workers; k++) pthread_create(&th[k], NULL, stress_worker, (void*)(intptr_t)k);
+        for(int g = 0; g < grow; g++) {
+            snprintf(nm, sizeof nm, "g%d", g);
+            int id = parsec_info_register(s_nfo, nm, NULL, NULL, NULL, NULL, NULL);
+            parsec_info_set(s_oa, id, (void*)(uintptr_t)(id + 1));
+            if( (long)(uintptr_t)parsec_info_get(s_oa, id) != id + 1 && __sync_fetch_and_add(&s_bad, 1) == 0 )
+                printf("!viol C41 concurrent: freshly set slot %d of a grown array does not hold its value\n", id);
+        }
+        s_stop = 1;
+        for(int k = 0; k < workers; k++) pthread_join(th[k], NULL);
+        /* deliberately not released: destruction is not under test */
+    }
+    pv_stat("stress_rounds", rounds); pv_stat("stress_growths", (long)rounds * grow);
+    return s_bad ? 1 : 0;
+}
+
+int main(int argc, char **argv)
 {
     char line[512], name[256];
+    if( argc >= 5 && 0 == strcmp(argv[1], "stress") ) { stress(atoi(argv[2]), atoi(argv[3]), atoi(argv[4])); return 0; }
     reset();
     while( fgets(line, sizeof line, stdin) ) {
         int a, iid, c, d; long v, w;
